@@ -64,6 +64,11 @@ def check(case, ctx):
         cell = holder
         ctx.event("cell-object-reused-in-place")
 
+    elif S.is_int_typed(case["cell"]):
+        # the cell as written in a script: whole numbers typed as ints (list or integer ndarray)
+        cell = S.cell_arg(case["cell"], case.get("as_array"))
+        ctx.event("integer-typed-cell")
+
     A = np.asarray(mod.form_a_mat(cell), float)
     B = np.asarray(mod.form_b_mat(cell), float)
     for name, M in (("A", A), ("B", B)):
